@@ -177,7 +177,7 @@ def run(prop, tier, seed, replay=None):
                      "passed the metainfo hash'", "bounds: 2-3 pieces of 1-2 (abstract) chunks, 2-4 threads, one operation "
                      "per thread in TLC-generated behaviours, 4 per thread in random schedules",
                      "yield points are the only places where goroutines are interleaved by the gated replay"]
-    if replay and json.load(open(replay))["scenario"].get("kind") == "farread":
+    if replay and json.load(open(replay))["scenario"].get("kind") in ("farread", "fuseconc"):
         import p_http
         p_http._drive(v, prop, [json.load(open(replay))["scenario"]], lambda c: c["kind"])
         return v.finish()
@@ -277,5 +277,8 @@ def run(prop, tier, seed, replay=None):
         p_upload.payload_check(v, tier, seed)
         # "returned at the offset it occupies", for offsets beyond 2^32
         import p_http
-        p_http._drive(v, prop, [{"id": 0, "kind": "farread", "route": "C01"}], lambda c: c["kind"])
+        fc = p_http._cases("MCFuseHandle", "FuseHandle_cases.cfg", v, 40)
+        for i, c in enumerate(fc):
+            c["id"], c["kind"], c["route"] = i + 1, "fuseconc", "C01"
+        p_http._drive(v, prop, [{"id": 0, "kind": "farread", "route": "C01"}] + fc, lambda c: c["kind"])
     return v.finish()
